@@ -1,6 +1,7 @@
 package main
 
 import (
+	"encoding/json"
 	"flag"
 	"fmt"
 	"os"
@@ -27,6 +28,8 @@ func main() {
 		os.Exit(cmdCheck(os.Args[2:]))
 	case "dump":
 		cmdDump(os.Args[2:])
+	case "replay":
+		os.Exit(cmdReplay(os.Args[2:]))
 	case "baseline":
 		os.Exit(cmdBaseline(os.Args[2:]))
 	case "ssa":
@@ -133,4 +136,52 @@ func cmdDump(args []string) {
 			}
 		}
 	}
+}
+
+// cmdReplay re-runs the generated test of a replay file against /repo.
+func cmdReplay(args []string) int {
+	if len(args) < 1 {
+		fmt.Fprintln(os.Stderr, "usage: govc replay <replay.json>")
+		return 2
+	}
+	data, err := os.ReadFile(args[0])
+	if err != nil {
+		fmt.Fprintln(os.Stderr, err)
+		return 2
+	}
+	var rep map[string]interface{}
+	if err := json.Unmarshal(data, &rep); err != nil {
+		fmt.Fprintln(os.Stderr, err)
+		return 2
+	}
+	fmt.Printf("obligation: %v\nproperty: %v\nreason: %v\nsolver: %v (%v)\n", rep["obligation"], rep["property"], rep["reason"], rep["solver"], rep["solver_status"])
+	rr, _ := rep["replay"].(map[string]interface{})
+	if rr == nil || rr["test_source"] == nil || rr["test_source"] == "" {
+		fmt.Println("no executable replay was generated for this obligation; the model (if any) is in the file")
+		if m, ok := rep["model"]; ok {
+			fmt.Printf("model: %v\n", m)
+		}
+		return 1
+	}
+	src, _ := rr["test_source"].(string)
+	cmdline, _ := rr["cmd"].(string)
+	// cmd has the form "cd <dir> && go test ..."
+	dir := ""
+	if i := strings.Index(cmdline, " && "); i > 3 {
+		dir = strings.TrimPrefix(cmdline[:i], "cd ")
+	}
+	if dir == "" {
+		fmt.Println("replay file has no package directory")
+		return 2
+	}
+	initTmp()
+	defer cleanupTmp()
+	out, confirmed := runReplayTest(dir, src)
+	fmt.Println(out)
+	if confirmed {
+		fmt.Println("REPLAY: the real code panics on the model's inputs (violation reproduced)")
+		return 1
+	}
+	fmt.Println("REPLAY: not reproduced")
+	return 0
 }
